@@ -227,6 +227,11 @@ func NewBlockResultsMeta(results *consensus.BlockResults) (*BlockResultsMeta, er
 	if err := cbor.Unmarshal(results.Meta, &meta); err != nil {
 		return nil, fmt.Errorf("malformed block results metadata: %w", err)
 	}
+	for _, r := range meta.TxsResults {
+		if r == nil {
+			return nil, fmt.Errorf("malformed block results metadata: nil transaction result")
+		}
+	}
 
 	return &meta, nil
 }
